@@ -16,7 +16,7 @@ Definition catalogue : list (string * cover) := [
      ByLemma ["intern_content"; "run_got_content"; "par_set_union"]);
   ("src/names.rs|SeqNameList::get|impl SeqNameList { pub(crate) fn get(&self, name: &Name) -> Name { let existing = self.0.borrow().get(name).cloned(); match existing { Some(name) => name, None => { self.0.borrow_mut().insert(name.clone()); name.clone() } } } pub(crate) fn contains(&self, key: impl AsRef<str>) -> bool { self.0.borrow().contains(key.as_ref()) } }",
      ByLemma ["gets_seq_content"; "seq_font_set"]);
-  ("src/layer.rs|Layer::load_impl/file name check|let mut seen_files = HashSet::new(); for (name, path) in &contents { let Some(file_name) = plain_name(path) else { return Err(LayerLoadError::InvalidGlyphFileName { name: name.to_string(), path: path.clone(), }); }; if !seen_files.insert(file_name) { return Err(LayerLoadError::DuplicateGlyphFileName(path.clone())); } }",
+  ("src/layer.rs|Layer::load_impl/file name check|let mut seen_files = HashSet::new(); for (name, path) in &contents { let Some(file_name) = plain_name(path) else { return Err(LayerLoadError::InvalidGlyphFileName { name: name.to_string(), path: path.clone(), }); }; if !seen_files.insert(file_name.to_string_lossy().to_lowercase()) { return Err(LayerLoadError::DuplicateGlyphFileName(path.clone())); } }",
      ByLemma ["files_ok_nodup"; "loaded_layer_paths_distinct"; "par_layer_spec"]);
   ("src/layer.rs|Layer::load_impl/parallel map|let glyphs = iter .map(|(name, glyph_path)| { let name = names.get(name); let glyph_path = path.join(glyph_path); Glyph::load_with_names(&glyph_path, names) .map_err(|source| LayerLoadError::Glyph { name: name.to_string(), path: glyph_path, source, }) .map(|mut glyph| { glyph.name = name.clone(); (name, glyph) }) }) .collect::<Result<_, _>>()?;",
      ByLemma ["par_layer_spec"; "par_layer_ok_iff"; "run_done_perm"; "fold_ins_perm"]);
